@@ -187,6 +187,28 @@ func TestC37(t *testing.T) {
 			}
 		}
 		rec.Label(path)
+		// the one-pass decision: choices whose continuations share first bytes,
+		// in particular only through (?i)
+		nch, chOverlap, chByCase := choiceOverlap(n)
+		mixedCase := false
+		{
+			ciLeaf, csLetter := false, false
+			n.walk(func(x *node) {
+				if x.kind == kLit || x.kind == kClass || x.kind == kQuoted {
+					ciLeaf = ciLeaf || x.ci
+					csLetter = csLetter || (!x.ci && x.kind == kLit && flipCase(x.c) != x.c)
+				}
+			})
+			mixedCase = ciLeaf && csLetter
+		}
+		bos := startsWithBos(n)
+		rec.LabelIf(cfg.shape != "", "shape_"+cfg.shape)
+		rec.LabelIf(bos && nch > 0, "bos_with_choice")
+		rec.LabelIf(bos && nch > 0 && mixedCase, "bos_with_choice_mixed_case_modes")
+		rec.LabelIf(bos && chOverlap, "bos_choice_overlapping_first_bytes")
+		rec.LabelIf(bos && chByCase, "bos_choice_overlap_only_through_ignorecase")
+		rec.LabelIf(path == "path_onepass" && nch > 0, "onepass_with_choice")
+		rec.LabelIf(path == "path_onepass" && nch > 0 && mixedCase, "onepass_with_mixed_case_branches")
 		rec.LabelIf(nloop, "pattern_with_nullable_loop")
 		rec.LabelIf(cfg.groups > 0, "pattern_with_groups")
 		rec.LabelIf(cfg.groups > 9, "pattern_with_more_than_9_groups")
@@ -230,6 +252,8 @@ func TestC37(t *testing.T) {
 				}
 			}
 			rec.Case(ntPat && s != "", "go|"+su+"|"+s)
+			rec.LabelIf(chByCase && bos && gok, "bos_choice_overlap_only_through_ignorecase_match")
+			rec.LabelIf(path == "path_onepass" && nch > 0 && mixedCase && gok, "onepass_with_mixed_case_branches_match")
 			if gok {
 				rec.Label("match")
 				rec.LabelIf(gc[0] > 0, "match_not_at_start")
